@@ -2,8 +2,12 @@ package props
 
 import (
 	"bytes"
+	"context"
 	"fmt"
 	"io"
+	"net"
+	"os"
+	"syscall"
 	"testing"
 	"testing/iotest"
 
@@ -97,6 +101,40 @@ func (z *zeroReader) Read(p []byte) (int, error) {
 	return int(n), nil
 }
 
+// flakyReader delivers data, except that the read reaching offset failAt fails once with err (after
+// delivering the bytes before failAt); asked again it carries on.
+type flakyReader struct {
+	data   []byte
+	failAt int
+	err    error
+	pos    int
+	failed bool
+}
+
+func (f *flakyReader) Read(p []byte) (int, error) {
+	if !f.failed && f.pos+len(p) > f.failAt {
+		n := copy(p[:f.failAt-f.pos], f.data[f.pos:f.failAt])
+		f.pos += n
+		if n == 0 {
+			f.failed = true
+			return 0, f.err
+		}
+		return n, nil
+	}
+	if f.pos >= len(f.data) {
+		return 0, io.EOF
+	}
+	n := copy(p, f.data[f.pos:])
+	f.pos += n
+	return n, nil
+}
+
+type tempErr struct{}
+
+func (tempErr) Error() string   { return "temporarily unavailable" }
+func (tempErr) Temporary() bool { return true }
+func (tempErr) Timeout() bool   { return true }
+
 func TestC07(t *testing.T) {
 	r := mon.Start(t, "C07")
 	defer r.Close()
@@ -158,6 +196,38 @@ func TestC07(t *testing.T) {
 			c.Sig(fmt.Sprintf("defaults|%s", sizeClass(n)), n >= 2)
 		})
 	}
+	// link widths far beyond the usual: one interior node of tens of thousands of links encodes to more
+	// than a mebibyte. The reference importer limits the payload of a leaf, never the encoded size of a
+	// node, so such a file has a CID there - and must have the same one here
+	for _, wn := range [][2]int{{25000, 24000}, {30000, 30001}} {
+		w, n := wn[0], wn[1]
+		r.Case(fmt.Sprintf("very-wide/w%d/chunks%d", w, n), map[string]any{"chunks": n, "chunker": "size-1", "width": w}, func(c *mon.Case) {
+			content := gen.Content(c.Rand(), "rand", n)
+			st, ref := store.New(), store.New()
+			var l ipld.Link
+			var size uint64
+			var err error
+			withWidth(w, func() { l, size, err = builder.BuildUnixFSFile(bytes.NewReader(content), "size-1", st.LinkSystem(false)) })
+			rroot, rsize, rerr := oracle.RefImport(ref, bytes.NewReader(content), "size-1", w, oracle.ImportMode{Layout: "balanced", RawLeaves: true, CidV1: true})
+			if rerr != nil {
+				c.Harness("reference importer: %v", rerr)
+				return
+			}
+			c.Count("compared", 1)
+			c.Count("compared_with_nodes_over_1MiB", 1)
+			if err != nil {
+				c.Violation("C07|build-error", "BuildUnixFSFile of %d one-byte chunks at link width %d: %v (the reference importer returns %s, %d)", n, w, err, rroot, rsize)
+				return
+			}
+			if blk, ok := st.Get(linkCid(l)); ok {
+				c.Max("max_encoded_node_bytes", int64(len(blk)))
+			}
+			if !linkCid(l).Equals(rroot) || size != rsize {
+				c.Violation("C07|root-differs|very-wide", "%d one-byte chunks at link width %d: builder (%s, %d), reference (%s, %d)", n, w, l, size, rroot, rsize)
+			}
+			c.Sig(fmt.Sprintf("very-wide|%d", w), true)
+		})
+	}
 	// a source that fails after delivering part of the content: the reference importer reports the
 	// error, so must the builder (whatever the kind of error, including ones that wrap io.EOF)
 	for i, kind := range []error{store.ErrInjected, fmt.Errorf("source truncated: %w", io.EOF), io.ErrUnexpectedEOF, fmt.Errorf("wrapped: %w", io.ErrUnexpectedEOF), io.ErrClosedPipe} {
@@ -168,14 +238,53 @@ func TestC07(t *testing.T) {
 				mk := func() io.Reader { return io.MultiReader(bytes.NewReader(content), iotest.ErrReader(kind)) }
 				var berr, rerr error
 				var l ipld.Link
-				withWidth(3, func() { l, _, berr = builder.BuildUnixFSFile(mk(), "size-16", store.New().LinkSystem(false)) })
-				_, _, rerr = oracle.RefImport(store.New(), mk(), "size-16", 3, oracle.ImportMode{Layout: "balanced", RawLeaves: true, CidV1: true})
+				var bsize, rsize uint64
+				var rroot cid.Cid
+				withWidth(3, func() { l, bsize, berr = builder.BuildUnixFSFile(mk(), "size-16", store.New().LinkSystem(false)) })
+				rroot, rsize, rerr = oracle.RefImport(store.New(), mk(), "size-16", 3, oracle.ImportMode{Layout: "balanced", RawLeaves: true, CidV1: true})
 				c.Count("source_failures_compared", 1)
 				if (berr == nil) != (rerr == nil) {
 					c.Violation("C07|source-error-disagrees", "source failing with %q after %d bytes: builder returned (%v, err %v), reference importer err %v", kind, at, l, berr, rerr)
+				} else if berr == nil {
+					// an ending both accept (io.ErrUnexpectedEOF is how a short last chunk looks to the
+					// chunkers): then the file is the same file
+					c.Count("accepted_endings_compared", 1)
+					if !linkCid(l).Equals(rroot) || bsize != rsize {
+						c.Violation("C07|root-differs|after-source-error", "source ending with %q after %d bytes is accepted by both: builder (%v, %d), reference (%v, %d)", kind, at, l, bsize, rroot, rsize)
+					}
 				}
 				c.Sig(fmt.Sprintf("source-fails|kind%d", i), true)
 			})
+		}
+	}
+	// a source that fails ONCE and would carry on if asked again (a read deadline that expired, an
+	// interrupted system call, a "temporary" network error): the reference importer gives up at the
+	// first error whatever its kind - its chunkers have dropped the bytes read so far by then - and so
+	// must the builder; a result for content with a hole in it is no result
+	for i, kind := range []error{os.ErrDeadlineExceeded, context.DeadlineExceeded, syscall.EINTR, syscall.EAGAIN, &net.OpError{Op: "read", Net: "tcp", Err: os.ErrDeadlineExceeded}, tempErr{}, store.ErrInjected} {
+		for _, at := range []int{0, 8, 16, 40, 152, 700} {
+			for _, rest := range []int{0, 5, 16, 300} {
+				i, kind, at, rest := i, kind, at, rest
+				r.Case(fmt.Sprintf("source-fails-once/kind%d/at%d/rest%d", i, at, rest), map[string]any{"error": kind.Error(), "after_bytes": at, "bytes_after_the_failure": rest}, func(c *mon.Case) {
+					content := gen.Content(c.Rand(), "rand", at+rest)
+					var berr, rerr error
+					var l ipld.Link
+					var bsize, rsize uint64
+					var rroot cid.Cid
+					withWidth(3, func() {
+						l, bsize, berr = builder.BuildUnixFSFile(&flakyReader{data: content, failAt: at, err: kind}, "size-16", store.New().LinkSystem(false))
+					})
+					rroot, rsize, rerr = oracle.RefImport(store.New(), &flakyReader{data: content, failAt: at, err: kind}, "size-16", 3, oracle.ImportMode{Layout: "balanced", RawLeaves: true, CidV1: true})
+					c.Count("source_failures_compared", 1)
+					c.Count("transient_source_failures_compared", 1)
+					if (berr == nil) != (rerr == nil) {
+						c.Violation("C07|source-error-disagrees", "source failing once with %q (%T) after %d of %d bytes: builder returned (%v, %d, err %v), reference importer (%v, %d, err %v)", kind, kind, at, at+rest, l, bsize, berr, rroot, rsize, rerr)
+					} else if berr == nil && (!linkCid(l).Equals(rroot) || bsize != rsize) {
+						c.Violation("C07|root-differs|after-source-error", "source failing once with %q after %d of %d bytes: builder (%v, %d), reference (%v, %d)", kind, at, at+rest, l, bsize, rroot, rsize)
+					}
+					c.Sig(fmt.Sprintf("source-fails-once|kind%d|rest%v", i, rest > 0), true)
+				})
+			}
 		}
 	}
 	seen := map[string]bool{}
